@@ -240,19 +240,20 @@ static int json_patch_apply_move_copy(struct json_object **res,
 		 *   The "from" location MUST NOT be a proper prefix of the "path"
 		 *   location; i.e., a location cannot be moved into one of its children.
 		 */
-		if (from_s_len == strlen(path))
-		{
-			/* Same location: nothing to do, but it still has to exist */
-			if (json_pointer_get(*res, from_s, NULL))
-			{
-				_set_err_from_ptrget(errno, "from");
-				return -1;
-			}
-			return 0;
-		}
-		/* Copying a value into one of its children is fine: only "move" is restricted */
+		/* Copying a value onto itself or into one of its children is an ordinary
+		 * "add" of the copied value: only "move" is special */
 		if (move)
 		{
+			if (from_s_len == strlen(path))
+			{
+				/* Same location: nothing to do, but it still has to exist */
+				if (json_pointer_get(*res, from_s, NULL))
+				{
+					_set_err_from_ptrget(errno, "from");
+					return -1;
+				}
+				return 0;
+			}
 			_set_err(EINVAL, "Invalid attempt to move parent under a child");
 			return -1;
 		}
